@@ -275,11 +275,7 @@ def run(ctx):
         tcp_scs = tcp_scs[:60]
     extra = extra + tcp_scs
     allsc = scs + extra
-    sp = os.path.join(ctx.work, 'scen.json')
-    tp = os.path.join(ctx.work, 'trace.ndjson')
-    vlib.write_json(sp, [dict(nics=s['nics'], ops=strip(s['ops'])) for s in allsc])
-    ctx.run([drv, 'run', sp, tp], timeout=3000)
-    segs = vlib.split_segments(vlib.read_ndjson(tp))
+    segs = vlib.run_scenarios(ctx, drv, [dict(nics=s['nics'], ops=strip(s['ops'])) for s in allsc], 'c09', what='the stack (sockets API / packet injection)')
     if len(segs) != len(allsc):
         raise vlib.Inconclusive('driver produced %d segments for %d scenarios' % (len(segs), len(allsc)))
     # drift detector: the model's predicted bind/connect results and targets vs what the code did
